@@ -36,6 +36,10 @@ func runC03(c *vkit.Ctx, i int, h *History) {
 	r := c.Rand("run", i)
 	s := NewSess("c03")
 	defer s.Close()
+	s.ShareConfigs = i%2 == 0
+	if s.ShareConfigs {
+		c.Count("histories_through_shared_config_objects", 1)
+	}
 	s.seedPre(h)
 	nontrivial := false
 	shared := map[string]map[string]bool{}
